@@ -58,6 +58,10 @@ class CallMixin(object):
                     args = [callee] + args
                 return self.apply_contract(st, acc, cc, None, recv, args, kwargs, node)
         st, f = self.eval(fnode, st, acc)
+        if f.kind == "callable" and f.py[0] == "builtin" and f.py[1] in ("any", "all") and len(node.args) == 1 \
+                and isinstance(node.args[0], (ast.GeneratorExp, ast.ListComp)) and not node.keywords:
+            # any(<comprehension>) / all(<comprehension>): a quantifier; the intermediate list is not materialised
+            return self.quantified_comprehension(st, acc, node.args[0], f.py[1] == "any")
         st, args, kwargs = self.eval_args(node, st, acc)
         return self.call_value(st, acc, f, args, kwargs, node)
 
@@ -132,6 +136,8 @@ class CallMixin(object):
             return self.container_method(st, acc, f.py[2], f.py[1], args, kwargs, node)
         if tag == "lambda":
             return self.call_lambda(st, acc, f.py[1], f.py[2], args, kwargs, node)
+        if tag == "closure":
+            return self.call_closure(st, acc, f.py[2], args, kwargs, node)
         if tag == "oracle":
             fn, asorts, rsort = self.oracles[f.py[1]]
             zs = [self.to_sort(a, s) for a, s in zip(args, asorts)]
@@ -468,6 +474,55 @@ class CallMixin(object):
         st.env = saved
         return st, v
 
+    def call_closure(self, st, acc, fn, args, kwargs, node):
+        """A nested `def` called inside its defining function: the body is inlined; free variables are the
+        enclosing function's variables at call time (Python's by-reference capture).  No nonlocal stores."""
+        if any(isinstance(n, (ast.Nonlocal, ast.Global, ast.Yield, ast.YieldFrom)) for n in ast.walk(fn)):
+            raise Undecided("closure %s with nonlocal/global/yield" % fn.name)
+        if fn.args.vararg or fn.args.kwarg or fn.args.kwonlyargs or kwargs:
+            raise Undecided("closure %s signature" % fn.name)
+        names = [a.arg for a in fn.args.args]
+        if len(args) > len(names) or len(args) < len(names) - len(fn.args.defaults):
+            raise Undecided("closure %s arity" % fn.name)
+        if self.depth >= self.MAX_INLINE_DEPTH:
+            raise Undecided("inline depth at closure %s" % fn.name)
+        saved_env = st.env
+        new = dict(saved_env)
+        for n, v in zip(names, args):
+            new[n] = v
+        for n, d in zip(names[len(args):], fn.args.defaults[len(fn.args.defaults) - (len(names) - len(args)):]):
+            st, dv = self.eval(d, st, acc)
+            new[n] = dv
+        self.depth += 1
+        try:
+            st.env = new
+            inner = Acc()
+            end = self.exec_block(fn.body, st, inner)
+            outs = list(inner.returns)
+            if end is not None:
+                outs.append((end, self.mk_none()))
+            for s, e in inner.raises:
+                s.env = saved_env
+                acc.raises.append((s, e))
+            if inner.breaks or inner.continues:
+                raise Undecided("break/continue escaping closure")
+            if not outs:
+                dead = st.copy()
+                dead.env = saved_env
+                dead.assume(z3.BoolVal(False))
+                return dead, SV(self.u.fresh_val("noreturn"))
+            if len(outs) == 1:
+                res_state, res_val = outs[0]
+            else:
+                res_state, tails = self.merge_with_tails([s for s, _ in outs])
+                res_val = self.merge_values([v for _, v in outs], tails)
+                if res_val is POISON:
+                    raise Undecided("results of closure %s cannot be merged" % fn.name)
+            res_state.env = saved_env
+            return res_state, res_val
+        finally:
+            self.depth -= 1
+
     # ------------------------------------------------------------------
     def construct(self, st, acc, cname, args, kwargs, node):
         ci = self.src.classes[cname]
@@ -563,6 +618,11 @@ class CallMixin(object):
         for name, t in c.params.items():
             if name in env and env[name].z is not None and env[name].kind in (None,):
                 env[name] = self.typed(env[name].z, t)
+            elif name in env and env[name].kind == "ref" and env[name].cls in ("list", "tuple") \
+                    and env[name].elem is None and t.startswith("seq:"):
+                # element type of the callee's view (its clauses are written against the declared type)
+                a = env[name]
+                env[name] = SV(a.z, "ref", cls=a.cls, elem=t[4:])
         if c.trusted:
             self.trusted_used.add(c.fid)
         # the callee's clauses are evaluated with the callee contract's globals/macros
@@ -582,6 +642,15 @@ class CallMixin(object):
         else:
             for label, text in c.requires:
                 pass
+        if self.in_spec and c.pure and not c.raises and not c.modifies:
+            # inside a quantified body (comprehension / contract text) a fresh result constant would not depend
+            # on the bound variable: use the defining clause  `result == E`  of a pure contract as the value
+            for label, text in c.ensures:
+                nd = self.parse_spec(text)
+                if isinstance(nd, ast.Compare) and isinstance(nd.left, ast.Name) and nd.left.id == "result" \
+                        and len(nd.ops) == 1 and isinstance(nd.ops[0], (ast.Eq, ast.Is)):
+                    v, _facts = self.spec_value(ast.unparse(nd.comparators[0]), st, env)
+                    return st, v
         old = st.copy()
         old_env = env
         # havoc
@@ -1445,6 +1514,19 @@ class CallMixin(object):
             a, b = args[0], args[1]
             f = u.uf("str_replace", u.Str, u.Str, u.Str, u.Str)
             return st, SV(u.S(f(self.as_str(recv), self.as_str(a), self.as_str(b))), "str")
+        if name == "split" and not args and not kwargs:
+            # whitespace split as a pure function of the text: a fresh list of str_nwords(s) words str_word(s, k)
+            s_ = self.as_str(recv)
+            n = u.uf("str_nwords", u.Str, u.Int)(s_)
+            res = self.new_symbolic_seq(st, "list", "str", length=n)
+            rel = u.fresh("words", u.ElemsSort)
+            st.heap["$at"] = z3.Store(self.heap_array(st, "$at"), self.as_ref(res), rel)
+            k = u.fresh_int("k")
+            wf = u.uf("str_word", u.Str, u.Int, u.Str)
+            st.assume(z3.ForAll([k], z3.Implies(z3.And(0 <= k, k < n), rel[k] == u.S(wf(s_, k))),
+                                patterns=[rel[k]]))
+            self.assumptions_used.add("A-lib:str.split")
+            return st, res
         if name in ("split", "rsplit", "splitlines", "partition", "rpartition"):
             res = self.new_symbolic_seq(st, "list", "str")
             self.assumptions_used.add("A-lib:str.%s" % name)
